@@ -11,7 +11,7 @@ R4  decode table of cache_objects in set_store.
 from __future__ import annotations
 
 import ast
-from typing import List, Optional, Tuple
+from typing import Any, List, Optional, Tuple
 
 from ..absint import Evaluator, Const, Sym, Obj, TOP, NOT_HANDLED
 from ..cfg import cfg_of, Node
@@ -292,6 +292,37 @@ def run(ctx: Ctx) -> None:
     decode_cache_objects(ctx, wrap)
 
 
+def _through_locals(fl: Any, test: ast.AST, label: str, depth: int = 0) -> Tuple[ast.AST, str]:
+    """the test a branch decides, read through `not` and through boolean locals with one definition (`cacheable = blob is not None`, `if cacheable:`):
+    (expression, the outcome of that expression on this branch)"""
+    if isinstance(test, ast.UnaryOp) and isinstance(test.op, ast.Not):
+        return _through_locals(fl, test.operand, "F" if label == "T" else "T", depth)
+    if isinstance(test, ast.Name) and depth < 4:
+        try:
+            ds = fl.defs_of_use(test)
+        except Exception:
+            ds = []
+        if len(ds) == 1 and getattr(ds[0], "kind", "assign") == "assign" and isinstance(ds[0].value, (ast.Compare, ast.UnaryOp, ast.BoolOp, ast.Name, ast.Call)):
+            return _through_locals(fl, ds[0].value, label, depth + 1)
+    return test, label
+
+
+def _is_hit_local(fl: Any, pt: ast.AST, cache_attr: str) -> bool:
+    e, lab = _through_locals(fl, pt, "T")
+    if not (isinstance(e, ast.Compare) and len(e.ops) == 1 and isinstance(e.comparators[0], ast.Constant) and e.comparators[0].value is None):
+        return False
+    if not ((isinstance(e.ops[0], ast.IsNot) and lab == "T") or (isinstance(e.ops[0], ast.Is) and lab == "F")):
+        return False
+    x = e.left
+    if isinstance(x, ast.Name):
+        try:
+            ds = fl.defs_of_use(x)
+        except Exception:
+            ds = []
+        return bool(ds) and all(d.value is not None and getattr(d, "kind", "assign") == "assign" and _self_attr_call(d.value, cache_attr) is not None for d in ds)
+    return _self_attr_call(x, cache_attr) is not None
+
+
 def insertion_rule(ctx: Ctx, rule: str) -> int:
     """every insertion into the object cache is control-dependent on evidence that the wrapped store holds the key"""
     rep = ctx.report
@@ -318,14 +349,14 @@ def insertion_rule(ctx: Ctx, rule: str) -> int:
             for b in cfg.nodes:
                 if b.kind != "branch" or b.ast is None:
                     continue
-                a = b.ast
+                a, lab = _through_locals(fl, b.ast, b.label)
                 if isinstance(a, ast.Compare) and len(a.ops) == 1 and isinstance(a.comparators[0], ast.Constant) and a.comparators[0].value is None:
                     from_store = isinstance(val, ast.Name) and bool(fl.defs_of_use(val)) and all(
                         d_.value is not None and _self_attr_call(d_.value, store_attr) == "fetch_blob" for d_ in fl.defs_of_use(val))
                     if from_store and isinstance(a.left, ast.Name) and isinstance(val, ast.Name) and a.left.id == val.id and set(fl.defs_of_use(a.left)) == set(fl.defs_of_use(val)):
-                        if (isinstance(a.ops[0], ast.IsNot) and b.label == "T") or (isinstance(a.ops[0], ast.Is) and b.label == "F"):
+                        if (isinstance(a.ops[0], ast.IsNot) and lab == "T") or (isinstance(a.ops[0], ast.Is) and lab == "F"):
                             evidence.append(b)
-                if b.label == "T" and any(_self_attr_call(x, store_attr) == "has_blob" for x in ast.walk(a)) and not any(
+                if lab == "T" and any(_self_attr_call(x, store_attr) == "has_blob" for x in ast.walk(a)) and not any(
                         isinstance(x, ast.BoolOp) and isinstance(x.op, ast.Or) for x in ast.walk(a)):
                     evidence.append(b)
             for n in m.own_nodes():
@@ -418,6 +449,8 @@ def passthrough_rules(ctx: Ctx, rule: str, only: Optional[List[str]] = None) -> 
                     pass  # a cache probe
                 elif isinstance(pt, ast.Constant) and pt.value is True and dominated(ctx, hb, r_, hit_T) is None:
                     pass  # `return True` under a cache hit
+                elif _is_hit_local(flow_of(prog, hb), pt, cache_attr):
+                    pass  # a local that holds the outcome of a cache probe (`entry = self._cache.get(key)`, `hit = entry is not None`)
                 else:
                     ok = False
         ok = ok and n_deleg >= 1
